@@ -28,6 +28,8 @@ class Plain(param.Parameterized):
     prec = param.Number(default=0, precedence=2)
     optn = param.Number(default=3, allow_None=True)
     opts = param.String(default="x", allow_None=True)
+    cfgd = param.Dict(default={"fmt": "png", "dpi": 72})         # a non-empty dict default
+    cfgl = param.List(default=[{"k": 1}, 2])                     # ... and one nested in a list
 
 
 class Pos(param.Parameterized):
